@@ -36,9 +36,13 @@ var keyNames = []string{"ed1", "ed2", "rsa2048", "rsa3072", "p224", "p256", "p38
 var encodings = []string{"pkcs8", "pkcs1", "sec1", "pub", "cert", "cert-by-rsa-ca", "cert-by-ecdsa-ca", "cert-by-ed25519-ca"}
 
 // reader-*: the bytes are unchanged, the reader hands them out one byte / half a request at a time (reader APIs only)
-var framings = []string{"plain", "leading-text", "trailing-text", "second-block", "crlf", "leading-blank-lines", "leading-100k-newlines", "reader-one-byte", "reader-half"}
+var framings = []string{"plain", "leading-text", "trailing-text", "second-block", "crlf", "leading-blank-lines", "leading-100k-newlines", "reader-one-byte", "reader-half", "file-behind-symlink", "file-behind-relative-symlink"}
 
 var readerMode string
+
+// fileMode: how load() puts the bytes on disk for the file APIs ("" = a regular file at the path;
+// file-behind-symlink / file-behind-relative-symlink = the path is a symbolic link to the regular file)
+var fileMode string
 var apis = []string{"LoadKey", "LoadKeyDefaults", "LoadKeyReader", "LoadKeyReaderDefaults"}
 
 type params struct {
@@ -150,7 +154,17 @@ func load(k *intoto.Key, c *mcx.Ctx, data []byte, api string, p *params) (err er
 		}
 	}()
 	path := filepath.Join(c.Work, "key.pem")
-	os.WriteFile(path, data, 0o600)
+	os.Remove(path)
+	switch fileMode {
+	case "file-behind-symlink":
+		os.WriteFile(filepath.Join(c.Work, "key-target.pem"), data, 0o600)
+		os.Symlink(filepath.Join(c.Work, "key-target.pem"), path)
+	case "file-behind-relative-symlink":
+		os.WriteFile(filepath.Join(c.Work, "key-target.pem"), data, 0o600)
+		os.Symlink("key-target.pem", path)
+	default:
+		os.WriteFile(path, data, 0o600)
+	}
 	c.Impl(1)
 	switch api {
 	case "LoadKey":
@@ -262,6 +276,13 @@ func judge(c *mcx.Ctx, cs Case) (obs, sig, class string) {
 			readerMode = cs.Framing
 			defer func() { readerMode = "" }()
 		}
+		if strings.HasPrefix(cs.Framing, "file-") {
+			if cs.API != "LoadKey" && cs.API != "LoadKeyDefaults" {
+				return "file framing does not apply to a reader", "", "skip"
+			}
+			fileMode = cs.Framing
+			defer func() { fileMode = "" }()
+		}
 		var p *params
 		if cs.API == "LoadKey" || cs.API == "LoadKeyReader" {
 			for _, x := range paramMenu(kindOf(cs.Key)) {
@@ -292,6 +313,21 @@ func judge(c *mcx.Ctx, cs Case) (obs, sig, class string) {
 				for i := range other.KeyIDHashAlgorithms {
 					other.KeyIDHashAlgorithms[i] = "sha512"
 				}
+			} else if strings.HasPrefix(cs.Framing, "after-refused:") {
+				// the earlier load went into ANOTHER key object and was refused because of its parameters (the key
+				// material itself is well formed): nothing of that attempt may reach a key loaded afterwards
+				var other intoto.Key
+				var rp *params
+				for _, x := range paramMenu(kindOf(cs.Then[0])) {
+					if x.Name == strings.TrimPrefix(cs.Framing, "after-refused:") {
+						x := x
+						rp = &x
+					}
+				}
+				if rp == nil {
+					return "parameters not found", "", "skip"
+				}
+				load(&other, c, first, "LoadKeyReader", rp)
 			} else if err, pan := load(&k, c, first, "LoadKeyReaderDefaults", nil); err != nil || pan != "" {
 				return "first load failed", "", "skip"
 			}
@@ -507,6 +543,17 @@ func enumerate(thorough bool, emit func(Case)) {
 			}
 		}
 	}
+	for _, a := range hk {
+		for _, ea := range encodings {
+			for _, b := range hk {
+				for _, eb := range encodings {
+					for _, rp := range []string{"explicit-scheme-of-other-type", "explicit-unknown-scheme", "explicit-empty-scheme", "explicit-unsupported-hash-algorithm"} {
+						emit(Case{Part: "history", Key: b, Enc: eb, Framing: "after-refused:" + rp, API: "LoadKeyReaderDefaults", Then: []string{a, ea}})
+					}
+				}
+			}
+		}
+	}
 	emit(Case{Part: "ids"})
 	for _, a := range keyNames {
 		for _, b := range keyNames {
@@ -541,7 +588,19 @@ func enumerate(thorough bool, emit func(Case)) {
 	}
 }
 
+// preload reads the key pool before any case runs (the pool is loaded through the library, and a case must not
+// be able to disturb it)
+func preload() {
+	for _, n := range keyNames {
+		gen.Key(n)
+	}
+	for _, n := range []string{"ed3", "ed9", "rsa2048b", "p256b"} {
+		gen.Key(n)
+	}
+}
+
 func run(c *mcx.Ctx) {
+	preload()
 	var n int64
 	enumerate(c.Thorough(), func(cs Case) {
 		n++
@@ -549,6 +608,7 @@ func run(c *mcx.Ctx) {
 			return
 		}
 		obs, sig, class := judge(c, cs)
+		obs = strings.ReplaceAll(obs, c.Work, "<work>")
 		if class == "skip" {
 			c.Count("skipped:"+obs, 1)
 			return
@@ -566,12 +626,13 @@ func run(c *mcx.Ctx) {
 }
 
 func replay(c *mcx.Ctx, raw json.RawMessage) (string, string) {
+	preload()
 	var cs Case
 	if err := json.Unmarshal(raw, &cs); err != nil {
 		return "bad case: " + err.Error(), ""
 	}
 	obs, sig, _ := judge(c, cs)
-	return obs, sig
+	return strings.ReplaceAll(obs, c.Work, "<work>"), sig
 }
 
 func init() {
